@@ -270,6 +270,23 @@ def index_guard(node, par):
                             return f"else of if {show(cc)}"
                 if in_then and cc.get("k") == "un" and cc["op"] == "!" and show(cc["e"]) == f"{var}.is_empty()" and k == 0:
                     return "if !is_empty()"
+        if kind == "bin" and p["op"] == "&&" and (p["rhs"] is cur or guards._contains(p["rhs"], cur)):
+            # `X.len() == 1 && X[0]..`: the left conjuncts guard the right operand (short circuit)
+            for cc in conj(p["lhs"]):
+                if cc.get("k") == "bin" and show(cc["lhs"]) == lenexpr and isinstance(_lv(cc["rhs"]), int):
+                    n, op = _lv(cc["rhs"]), cc["op"]
+                    if (op == "==" and n > k) or (op == ">" and n >= k) or (op == ">=" and n > k):
+                        return f"{show(cc)} && .."
+                if cc.get("k") == "un" and cc["op"] == "!" and show(cc["e"]) == f"{var}.is_empty()" and k == 0:
+                    return "!is_empty() && .."
+        if kind == "bin" and p["op"] == "||" and (p["rhs"] is cur or guards._contains(p["rhs"], cur)):
+            for cc in disj(p["lhs"]):
+                if show(cc) == f"{var}.is_empty()" and k == 0:
+                    return "is_empty() || .."
+                if cc.get("k") == "bin" and show(cc["lhs"]) == lenexpr and isinstance(_lv(cc["rhs"]), int):
+                    n, op = _lv(cc["rhs"]), cc["op"]
+                    if (op == "<" and n > k) or (op == "<=" and n >= k) or (op == "!=" and n > k and False):
+                        return f"{show(cc)} || .."
         if kind == "match" and show(p["e"]) == lenexpr:
             for arm in p["arms"]:
                 if arm is cur or guards._contains(arm["body"], cur):
